@@ -138,6 +138,22 @@ Example C10_no_stream_number_examples :
   no_stream_number [] /\ no_stream_number [VNull; VNumber 4607182418800017408] /\ no_stream_number [VString (str "1")].
 Proof. exact no_stream_number_examples. Qed.
 
+(* an onStatus message can do exactly three things: nothing to the session (unknown code reported, malformed or out-of-state status
+   refused), PlayRequested -> Playing, PublishRequested -> Publishing *)
+Theorem C10_status_effect : forall c args c' r,
+  ch_status c args = (c', r) ->
+  c' = c \/
+  (cl_state c = PlayRequested /\ c' = cupd_state c Playing /\ r = COk [CEvent CPlaybackAccepted]) \/
+  (cl_state c = PublishRequested /\ c' = cupd_state c Publishing /\ r = COk [CEvent CPublishAccepted]).
+Proof. exact status_effect. Qed.
+
+Theorem C10_status_malformed : forall c args,
+  (forall ps rest code, args = VObject ps :: rest -> prop_get (str "code") ps <> Some (VString code)) ->
+  ch_status c args = (c, CErr CInvalidOnStatus).
+Proof. exact status_malformed. Qed.
+
+Print Assumptions C10_status_effect.
+Print Assumptions C10_status_malformed.
 Print Assumptions C10_create_stream_result_without_number.
 Print Assumptions C10_create_stream_error_refused.
 Print Assumptions C10_create_stream_result.
